@@ -17,6 +17,7 @@ use std::str::FromStr;
 struct Def {
     name: &'static str,
     dag: bool,
+    /// comma separated parameter list ("%t", "0.5", "%t, 0.5", ...)
     param: Option<&'static str>,
     qs: Vec<&'static str>,
 }
@@ -38,6 +39,10 @@ fn c16_defs() -> Vec<Def> {
     for qs in [["0", "1"], ["q", "1"], ["0", "r"], ["q", "r"], ["1", "0"]] {
         defs.push(Def { name: "CZ", dag: false, param: None, qs: qs.to_vec() });
     }
+    // two parameters: fixed and variable in either position
+    for p in ["%s, %t", "0.5, %t", "%s, 0.5", "0.5, 0.5"] {
+        defs.push(Def { name: "U", dag: false, param: Some(p), qs: vec!["q"] });
+    }
     defs
 }
 type GateQ = (String, &'static str, bool, Option<&'static str>, Vec<&'static str>);
@@ -56,6 +61,10 @@ fn c16_gates() -> Vec<GateQ> {
     for qs in [["0", "1"], ["1", "0"], ["0", "2"], ["2", "1"], ["q", "1"]] {
         g.push((format!("CZ {} {}", qs[0], qs[1]), "CZ", false, None, qs.to_vec()));
     }
+    for p in ["0.5, 0.5", "0.5, 1.5", "1.5, 0.5", "1.5, 1.5"] {
+        g.push((format!("U({p}) 0"), "U", false, Some(p), vec!["0"]));
+    }
+    g.push(("U(0.5) 0".into(), "U", false, Some("0.5"), vec!["0"]));
     g.push(("X 0 1".into(), "X", false, None, vec!["0", "1"]));
     g.push(("RX 0".into(), "RX", false, None, vec!["0"]));
     g.push(("CONTROLLED X 1 0".into(), "X", false, None, vec!["1", "0", "<controlled>"]));
@@ -104,7 +113,10 @@ fn c16_gate_check(defs: &[Def], gates: &[GateQ], l: &[usize]) -> Vec<(String, St
                 }
                 let qok = d.qs.iter().zip(qs).all(|(dq, gq)| if is_fixed(dq) { dq == gq } else { true });
                 let pok = match (d.param, param) {
-                    (Some(dp), Some(gp)) => dp.starts_with('%') || dp == *gp,
+                    (Some(dp), Some(gp)) => {
+                        let (dl, gl): (Vec<&str>, Vec<&str>) = (dp.split(", ").collect(), gp.split(", ").collect());
+                        dl.len() == gl.len() && dl.iter().zip(&gl).all(|(a, b)| a.starts_with('%') || a == b)
+                    }
                     _ => true,
                 };
                 if qok && pok {
@@ -233,7 +245,7 @@ pub static C16: PropDef = PropDef {
     id: "C16",
     level: "exploration",
     engine: "sweep",
-    rule: "every ordered list of <= 3 (thorough 4) gate calibrations from a 17-signature alphabet (X / DAGGER X on 0,1,q; RX with %t, 0.5, 1.5 on 0,q; CZ on five fixed/variable patterns; identical signatures allowed -> replace in place), each with a distinct body marker, queried with 25 gates over the same alphabets (incl. wrong arity, missing parameter, variable qubit, extra modifier); every ordered list of <= 3 (4) measure calibrations from 12 signatures (name, qubit 0/1/q, target yes/no) queried with 18 measurements; lookup result and one-instruction expansion compared with the documented precedence rules. non-trivial = (list, query) pair with a match (counted per list)",
+    rule: "every ordered list of <= 3 (thorough 4) gate calibrations from a 21-signature alphabet (X / DAGGER X on 0,1,q; RX with %t, 0.5, 1.5 on 0,q; CZ on five fixed/variable patterns; U with two parameters fixed / variable in either position; identical signatures allowed -> replace in place), each with a distinct body marker, queried with 30 gates over the same alphabets (incl. wrong arity, missing parameter, variable qubit, extra modifier); every ordered list of <= 3 (4) measure calibrations from 12 signatures (name, qubit 0/1/q, target yes/no) queried with 18 measurements; lookup result and one-instruction expansion compared with the documented precedence rules. non-trivial = (list, query) pair with a match (counted per list)",
     assumptions: &["reference rules transcribed from the property statement; parameter equality only between syntactically identical literals or a variable"],
     run: |ctx| {
         let defs = c16_defs();
